@@ -286,8 +286,8 @@ func NewPurityCase(g *Gen, id int) (*Case, []string, string) {
 				return q.Interface()
 			}
 		}
-		if n.Kind == KStruct && in.Kind == "map" && g.R.P(15) {
-			if vis, mk, ok := StructInput(in); ok {
+		if n.Kind == KStruct && in.Kind == "map" && g.R.P(40) {
+			if vis, mk, ok := StructInput(in, Pick(g.R.Fork(0x51a7), []int{0, 1, 2, 2, 3})); ok {
 				c.In = &vis
 				c.Shape += ":structinput"
 				mkData = mk
